@@ -7,3 +7,4 @@ INFO = {'not_decided': ['evaluation memos whose value depends on other files (th
         'stated_lemmas': ['Inv_memo holds initially and is preserved by every public entry point => every answer equals the history-free '
                           'specification value (view_end / view_at of the region graph)'],
         'trusted': []}
+import props._all  # noqa
